@@ -410,8 +410,8 @@ def run(ctx):
                                                          skip="-skip-ensure" in o["flags"], resets=False,
                                                          flags=o["flags"], out=o["out"]),
                                                text=o.get("out_after"), facts={}, src={}),
-                                     fails=[("generated into another package that has the source package's name, the mock "
-                                             "does not compile there or does not implement the interface",
+                                     fails=[("generated into another package (%s), the mock does not compile there or "
+                                             "does not implement the interface" % o["fault"],
                                              (o.get("dest_build_err") or "")[-300:])], families=[]))
             if o.get("dest_build") is not None:
                 evaluated += 1
